@@ -1,128 +1,523 @@
 #!/usr/bin/env python3
-"""C10 [T2] — extract the integer-comparison guard conditions of the guarded entry points from the
-text of /repo and compare them with the table the Lean model (lean/LpModel/C10.lean) was written from.
+"""C10 translator — regenerate the guard conditions of the guarded entry points from the TEXT of the C++ sources.
 
-  python3 translators/guards.py [repo]      prints one line per entry point: same | changed | missing
+  python3 translators/guards.py [repo] [out.lean]     (default: /repo, lean/LpModel/C10/GeneratedGuards.lean)
 
-The result is informational (evidence `notes.pre_build`): a changed text is not by itself a violation —
-a harmless re-spelling (`dimension <= i`) changes the text and keeps the behaviour; the correspondence run
-of the check decides.  A changed or missing anchor tells the reader which model guard to re-read.
+For every entry of TABLE the function definition is anchored by a regular expression, the k-th `if( … )` after the
+anchor is extracted (balanced parentheses), PARSED into a small expression AST (C++ precedence: `||`, `&&`,
+`== != < <= > >=`, `+ -`, `*`, unary `! -`, postfix `.m`, `(args)`, `[index]`) and emitted as a core-only Lean
+definition `def gen_<Entry> (params) : Bool`.  The operands a guard may mention (the ATOMS: `i`, `dimension`,
+`rhs.Size()`, `M.Rows()`, `entries[i].size()`, `Square()`, …) and their C++ types are fixed per entry in TABLE:
+`unsigned int`/`size_t` -> Nat (so `i < 0` is `false`, exactly as in the C++), `int` -> Int, `double` -> Rat (exact),
+`bool` -> Bool.  Anything else in the condition (an operand not listed, an unknown operator, arithmetic on unsigned
+operands, a missing anchor) is NOT guessed: the entry is reported as `cannot anchor/parse`, the last committed
+definition is kept so that the Lean side still builds, and the check reports a correspondence failure.
+
+`lean/LpProofs/C10/Generated.lean` proves, for all arguments, that every regenerated `gen_<Entry>` equals the
+hand-written model's guard (`(…Guard …).stops`); the `…_guard_iff` theorems therefore speak about what the source says
+NOW.  A changed comparison or connective breaks that proof obligation; an equivalent re-spelling does not.
 """
 import os, re, sys
+from fractions import Fraction
 
-# (entry point, file, regex anchoring the function definition, index of the `if(` after the anchor, expected condition)
+LA, NU, IN, SF, ST, UT, UN, LM = ("src/Linear_Algebra.cpp", "src/Numerics.cpp", "src/Integration.cpp", "src/Special_Functions.cpp",
+                                  "src/Statistics.cpp", "src/Utilities.cpp", "src/Natural_Units.cpp", "include/libphysica/List_Manipulations.hpp")
+N, I, Q, B = "Nat", "Int", "Rat", "Bool"
+
+
+def E(name, file, anchor, k, params, atoms):
+    return dict(name=name, file=file, anchor=anchor, k=k, params=params, atoms=atoms)
+
+
+# name (Lean identifier suffix), file, anchor, index of the `if(` after the anchor, Lean parameters (name, type) in the
+# order the theorems use, atoms: normalised C++ operand text -> (Lean expression, type)
 TABLE = [
-    ("Vector::operator[]",        "src/Linear_Algebra.cpp", r"^double& Vector::operator\[\]\(const unsigned int i\)", 0, "i < 0 || i >= dimension"),
-    ("Vector::operator[] const",  "src/Linear_Algebra.cpp", r"^const double& Vector::operator\[\]\(const unsigned int i\) const", 0, "i < 0 || i >= dimension"),
-    ("Vector::Dot",               "src/Linear_Algebra.cpp", r"^double Vector::Dot\(const Vector& rhs\) const", 0, "dimension != rhs.Size()"),
-    ("Vector::Cross",             "src/Linear_Algebra.cpp", r"^Vector Vector::Cross\(const Vector& rhs\) const", 0, "dimension != 3 || rhs.Size() != 3"),
-    ("Vector::operator+",         "src/Linear_Algebra.cpp", r"^Vector Vector::operator\+\(Vector v\) const", 0, "dimension != v.dimension"),
-    ("Vector::operator-",         "src/Linear_Algebra.cpp", r"^Vector Vector::operator-\(Vector v\) const", 0, "dimension != v.dimension"),
-    ("Vector::operator+=",        "src/Linear_Algebra.cpp", r"^Vector& Vector::operator\+=\(const Vector& v\)", 0, "dimension != v.dimension"),
-    ("Vector::operator-=",        "src/Linear_Algebra.cpp", r"^Vector& Vector::operator-=\(const Vector& v\)", 0, "dimension != v.dimension"),
-    ("Matrix(entries)",           "src/Linear_Algebra.cpp", r"^Matrix::Matrix\(std::vector<std::vector<double>> entries\)", 0, "entries[i].size() != columns"),
-    ("Matrix::Delete_Row",        "src/Linear_Algebra.cpp", r"^void Matrix::Delete_Row\(unsigned int row\)", 0, "row < 0 || row >= rows"),
-    ("Matrix::Delete_Column",     "src/Linear_Algebra.cpp", r"^void Matrix::Delete_Column\(unsigned int column\)", 0, "column < 0 || column >= columns"),
-    ("Matrix::Return_Row",        "src/Linear_Algebra.cpp", r"^Vector Matrix::Return_Row\(unsigned int row\) const", 0, "row < 0 || row >= rows"),
-    ("Matrix::Return_Column",     "src/Linear_Algebra.cpp", r"^Vector Matrix::Return_Column\(unsigned int column\) const", 0, "column < 0 || column >= columns"),
-    ("Matrix::Plus",              "src/Linear_Algebra.cpp", r"^Matrix Matrix::Plus\(const Matrix& M\) const", 0, "rows != M.Rows() || columns != M.Columns()"),
-    ("Matrix::Minus",             "src/Linear_Algebra.cpp", r"^Matrix Matrix::Minus\(const Matrix& M\) const", 0, "rows != M.Rows() || columns != M.Columns()"),
-    ("Matrix::operator+=",        "src/Linear_Algebra.cpp", r"^Matrix& Matrix::operator\+=\(const Matrix& M\)", 0, "rows != M.Rows() || columns != M.Columns()"),
-    ("Matrix::operator-=",        "src/Linear_Algebra.cpp", r"^Matrix& Matrix::operator-=\(const Matrix& M\)", 0, "rows != M.Rows() || columns != M.Columns()"),
-    ("Matrix::Product(Matrix)",   "src/Linear_Algebra.cpp", r"^Matrix Matrix::Product\(const Matrix& M\) const", 0, "columns != M.Rows()"),
-    ("Matrix::Product(Vector)",   "src/Linear_Algebra.cpp", r"^Vector Matrix::Product\(const Vector& v_rhs\) const", 0, "v_rhs.Size() != columns"),
-    ("Vector*Matrix",             "src/Linear_Algebra.cpp", r"^Vector operator\*\(const Vector& v_left, const Matrix& M\)", 0, "v_left.Size() != M.Rows()"),
-    ("Matrix::Trace",             "src/Linear_Algebra.cpp", r"^double Matrix::Trace\(\) const", 0, "rows != columns"),
-    ("Matrix::Determinant",       "src/Linear_Algebra.cpp", r"^double Matrix::Determinant\(\) const", 0, "!Square()"),
-    ("Matrix::Inverse",           "src/Linear_Algebra.cpp", r"^Matrix Matrix::Inverse\(\) const", 0, "!Square()"),
-    ("Matrix::operator[]",        "src/Linear_Algebra.cpp", r"^std::vector<double>& Matrix::operator\[\]\(const unsigned int i\)", 0, "i < 0 || i >= rows"),
-    ("Matrix::operator[] const",  "src/Linear_Algebra.cpp", r"^const std::vector<double>& Matrix::operator\[\]\(const unsigned int i\) const", 0, "i < 0 || i >= rows"),
-    ("Rotation_Matrix axis",      "src/Linear_Algebra.cpp", r"^Matrix Rotation_Matrix\(double alpha, int dim, Vector axis\)", 2, "axis.Size() != 3"),
-    ("Interpolation() lengths",   "src/Numerics.cpp",       r"^Interpolation::Interpolation\(const std::vector<double>& arg_values", 0, "x_values.size() != function_values.size()"),
-    ("Interpolation() N<3",       "src/Numerics.cpp",       r"^Interpolation::Interpolation\(const std::vector<double>& arg_values", 1, "N < 3"),
-    ("Interpolation() order",     "src/Numerics.cpp",       r"^Interpolation::Interpolation\(const std::vector<double>& arg_values", 2, "x_values[i] <= x_values[i - 1]"),
-    ("Interpolation(table) row",  "src/Numerics.cpp",       r"^Interpolation::Interpolation\(const std::vector<std::vector<double>>& data", 0, "data[i].size() != 2"),
-    ("Interpolation::Locate",     "src/Numerics.cpp",       r"^unsigned int Interpolation::Locate\(double x\)", 0, "x < domain[0] || x > domain[1]"),
-    ("Integrate_Gauss_Legendre",  "src/Integration.cpp",    r"^double Integrate_Gauss_Legendre\(std::vector<double> function_values", 0, "function_values.size() != roots_and_weights.size()"),
-    ("Factorial",                 "src/Special_Functions.cpp", r"^double Factorial\(unsigned int n\)", 0, "n > 170"),
-    ("Binomial_Coefficient",      "src/Special_Functions.cpp", r"^double Binomial_Coefficient\(int n, int k\)", 0, "k < 0 || n < 0"),
-    ("GammaLn",                   "src/Special_Functions.cpp", r"^double GammaLn\(double x\)", 0, "x <= 0"),
-    ("GammaQ",                    "src/Special_Functions.cpp", r"^double GammaQ\(double x, double a\)", 0, "x < 0.0 || a <= 0.0"),
-    ("Inv_GammaP",                "src/Special_Functions.cpp", r"^double Inv_GammaP\(double p, double a\)", 0, "a <= 0.0"),
-    ("PMF_Binomial",              "src/Statistics.cpp",     r"^double PMF_Binomial\(", 0, "p < 0.0 || p > 1.0"),
-    ("CDF_Binomial",              "src/Statistics.cpp",     r"^double CDF_Binomial\(", 0, "p < 0.0 || p > 1.0"),
-    ("Inv_CDF_Poisson",           "src/Statistics.cpp",     r"^double Inv_CDF_Poisson\(", 0, "cdf < 0.0 || cdf > 1.0"),
-    ("PDF_Exponential",           "src/Statistics.cpp",     r"^double PDF_Exponential\(", 0, "mean <= 0.0"),
-    ("CDF_Exponential",           "src/Statistics.cpp",     r"^double CDF_Exponential\(", 0, "mean <= 0.0"),
-    ("PDF_Maxwell_Boltzmann",     "src/Statistics.cpp",     r"^double PDF_Maxwell_Boltzmann\(", 0, "a <= 0.0"),
-    ("CDF_Maxwell_Boltzmann",     "src/Statistics.cpp",     r"^double CDF_Maxwell_Boltzmann\(", 0, "a <= 0.0"),
-    ("Log_Likelihood_Poisson_Binned", "src/Statistics.cpp", r"^double Log_Likelihood_Poisson_Binned\(", 1, "N_observed_binned.size() != N_bins || expected_background_binned.size() != N_bins"),
+    E("Vector_index", LA, r"^double& Vector::operator\[\]\(const unsigned int i\)", 0, [("i", N), ("dimension", N)], {"i": ("i", N), "dimension": ("dimension", N)}),
+    E("Vector_index_const", LA, r"^const double& Vector::operator\[\]\(const unsigned int i\) const", 0, [("i", N), ("dimension", N)], {"i": ("i", N), "dimension": ("dimension", N)}),
+    E("Vector_Dot", LA, r"^double Vector::Dot\(const Vector& rhs\) const", 0, [("dimension", N), ("rhs_size", N)], {"dimension": ("dimension", N), "rhs.Size()": ("rhs_size", N), "rhs.dimension": ("rhs_size", N)}),
+    E("Vector_Cross", LA, r"^Vector Vector::Cross\(const Vector& rhs\) const", 0, [("dimension", N), ("rhs_size", N)], {"dimension": ("dimension", N), "rhs.Size()": ("rhs_size", N), "rhs.dimension": ("rhs_size", N)}),
+    E("Vector_plus", LA, r"^Vector Vector::operator\+\(Vector v\) const", 0, [("dimension", N), ("v_dimension", N)], {"dimension": ("dimension", N), "v.dimension": ("v_dimension", N), "v.Size()": ("v_dimension", N)}),
+    E("Vector_minus", LA, r"^Vector Vector::operator-\(Vector v\) const", 0, [("dimension", N), ("v_dimension", N)], {"dimension": ("dimension", N), "v.dimension": ("v_dimension", N), "v.Size()": ("v_dimension", N)}),
+    E("Vector_pluseq", LA, r"^Vector& Vector::operator\+=\(const Vector& v\)", 0, [("dimension", N), ("v_dimension", N)], {"dimension": ("dimension", N), "v.dimension": ("v_dimension", N), "v.Size()": ("v_dimension", N)}),
+    E("Vector_minuseq", LA, r"^Vector& Vector::operator-=\(const Vector& v\)", 0, [("dimension", N), ("v_dimension", N)], {"dimension": ("dimension", N), "v.dimension": ("v_dimension", N), "v.Size()": ("v_dimension", N)}),
+    E("Matrix_entries_row", LA, r"^Matrix::Matrix\(std::vector<std::vector<double>> entries\)", 0, [("row_size", N), ("columns", N)], {"entries[i].size()": ("row_size", N), "columns": ("columns", N)}),
+    E("Matrix_Delete_Row", LA, r"^void Matrix::Delete_Row\(unsigned int row\)", 0, [("row", N), ("rows", N)], {"row": ("row", N), "rows": ("rows", N)}),
+    E("Matrix_Delete_Column", LA, r"^void Matrix::Delete_Column\(unsigned int column\)", 0, [("column", N), ("columns", N)], {"column": ("column", N), "columns": ("columns", N)}),
+    E("Matrix_Return_Row", LA, r"^Vector Matrix::Return_Row\(unsigned int row\) const", 0, [("row", N), ("rows", N)], {"row": ("row", N), "rows": ("rows", N)}),
+    E("Matrix_Return_Column", LA, r"^Vector Matrix::Return_Column\(unsigned int column\) const", 0, [("column", N), ("columns", N)], {"column": ("column", N), "columns": ("columns", N)}),
+] + [
+    E(nm, LA, an, 0, [("rows", N), ("columns", N), ("m_rows", N), ("m_columns", N)],
+      {"rows": ("rows", N), "columns": ("columns", N), "M.Rows()": ("m_rows", N), "M.Columns()": ("m_columns", N), "M.rows": ("m_rows", N), "M.columns": ("m_columns", N)})
+    for nm, an in (("Matrix_Plus", r"^Matrix Matrix::Plus\(const Matrix& M\) const"), ("Matrix_Minus", r"^Matrix Matrix::Minus\(const Matrix& M\) const"),
+                   ("Matrix_pluseq", r"^Matrix& Matrix::operator\+=\(const Matrix& M\)"), ("Matrix_minuseq", r"^Matrix& Matrix::operator-=\(const Matrix& M\)"),
+                   ("Matrix_Product", r"^Matrix Matrix::Product\(const Matrix& M\) const"))
+] + [
+    E("Matrix_Product_Vector", LA, r"^Vector Matrix::Product\(const Vector& v_rhs\) const", 0, [("rows", N), ("columns", N), ("v_size", N)], {"rows": ("rows", N), "columns": ("columns", N), "v_rhs.Size()": ("v_size", N)}),
+    E("Vector_times_Matrix", LA, r"^Vector operator\*\(const Vector& v_left, const Matrix& M\)", 0, [("v_size", N), ("m_rows", N), ("m_columns", N)], {"v_left.Size()": ("v_size", N), "M.Rows()": ("m_rows", N), "M.Columns()": ("m_columns", N)}),
+    E("Matrix_Trace", LA, r"^double Matrix::Trace\(\) const", 0, [("rows", N), ("columns", N)], {"rows": ("rows", N), "columns": ("columns", N), "Square()": ("decide (rows = columns)", B)}),
+    E("Matrix_Determinant", LA, r"^double Matrix::Determinant\(\) const", 0, [("rows", N), ("columns", N)], {"rows": ("rows", N), "columns": ("columns", N), "Square()": ("decide (rows = columns)", B)}),
+    E("Matrix_Inverse_square", LA, r"^Matrix Matrix::Inverse\(\) const", 0, [("rows", N), ("columns", N)], {"rows": ("rows", N), "columns": ("columns", N), "Square()": ("decide (rows = columns)", B)}),
+    E("Matrix_Inverse_singular", LA, r"^Matrix Matrix::Inverse\(\) const", 1, [("invertible", B)], {"Invertible()": ("invertible", B)}),
+    E("Matrix_index", LA, r"^std::vector<double>& Matrix::operator\[\]\(const unsigned int i\)", 0, [("i", N), ("rows", N)], {"i": ("i", N), "rows": ("rows", N)}),
+    E("Matrix_index_const", LA, r"^const std::vector<double>& Matrix::operator\[\]\(const unsigned int i\) const", 0, [("i", N), ("rows", N)], {"i": ("i", N), "rows": ("rows", N)}),
+    E("Rotation_dim2", LA, r"^Matrix Rotation_Matrix\(double alpha, int dim, Vector axis\)", 0, [("dim", I)], {"dim": ("dim", I)}),
+    E("Rotation_dim3", LA, r"^Matrix Rotation_Matrix\(double alpha, int dim, Vector axis\)", 1, [("dim", I)], {"dim": ("dim", I)}),
+    E("Rotation_axis", LA, r"^Matrix Rotation_Matrix\(double alpha, int dim, Vector axis\)", 2, [("axis_size", N)], {"axis.Size()": ("axis_size", N)}),
+    E("Interpolation_lengths", NU, r"^Interpolation::Interpolation\(const std::vector<double>& arg_values", 0, [("x_size", N), ("f_size", N)],
+      {"x_values.size()": ("x_size", N), "function_values.size()": ("f_size", N), "arg_values.size()": ("x_size", N), "func_values.size()": ("f_size", N)}),
+    E("Interpolation_short", NU, r"^Interpolation::Interpolation\(const std::vector<double>& arg_values", 1, [("n", N)], {"N": ("n", N), "x_values.size()": ("n", N), "arg_values.size()": ("n", N)}),
+    E("Interpolation_order", NU, r"^Interpolation::Interpolation\(const std::vector<double>& arg_values", 2, [("x_prev", Q), ("x_i", Q)],
+      {"x_values[i]": ("x_i", Q), "x_values[i - 1]": ("x_prev", Q), "arg_values[i]": ("x_i", Q), "arg_values[i - 1]": ("x_prev", Q)}),
+    E("Interpolation_table_row", NU, r"^Interpolation::Interpolation\(const std::vector<std::vector<double>>& data", 0, [("row_size", N)], {"data[i].size()": ("row_size", N)}),
+    E("Locate_outside", NU, r"^unsigned int Interpolation::Locate\(double x\)", 0, [("x", Q), ("d0", Q), ("d1", Q)], {"x": ("x", Q), "domain[0]": ("d0", Q), "domain[1]": ("d1", Q)}),
+    E("Locate_tolerated_left", NU, r"^unsigned int Interpolation::Locate\(double x\)", 1, [("x", Q), ("d0", Q), ("tol", Q)], {"x": ("x", Q), "domain[0]": ("d0", Q), "boundary_tolerance_left": ("tol", Q)}),
+    E("Locate_tolerated_right", NU, r"^unsigned int Interpolation::Locate\(double x\)", 2, [("x", Q), ("d1", Q), ("tol", Q)], {"x": ("x", Q), "domain[1]": ("d1", Q), "boundary_tolerance_right": ("tol", Q)}),
+    E("Local_Minimum_order", NU, r"^double Interpolation::Local_Minimum\(double x_1, double x_2\)", None, [("x_1", Q), ("x_2", Q)], {"x_1": ("x_1", Q), "x_2": ("x_2", Q)}),
+    E("Local_Maximum_order", NU, r"^double Interpolation::Local_Maximum\(double x_1, double x_2\)", None, [("x_1", Q), ("x_2", Q)], {"x_1": ("x_1", Q), "x_2": ("x_2", Q)}),
+    E("Gauss_Legendre_sizes", IN, r"^double Integrate_Gauss_Legendre\(std::vector<double> function_values", 0, [("f_size", N), ("rw_size", N)],
+      {"function_values.size()": ("f_size", N), "roots_and_weights.size()": ("rw_size", N)}),
+    E("Factorial", SF, r"^double Factorial\(unsigned int n\)", 0, [("n", N)], {"n": ("n", N)}),
+    E("Binomial_Coefficient", SF, r"^double Binomial_Coefficient\(int n, int k\)", 0, [("n", I), ("k", I)], {"n": ("n", I), "k": ("k", I)}),
+    E("GammaLn", SF, r"^double GammaLn\(double x\)", 0, [("x", Q)], {"x": ("x", Q)}),
+    E("GammaQ", SF, r"^double GammaQ\(double x, double a\)", 0, [("x", Q), ("a", Q)], {"x": ("x", Q), "a": ("a", Q)}),
+    E("Inv_GammaP", SF, r"^double Inv_GammaP\(double p, double a\)", 0, [("a", Q)], {"a": ("a", Q)}),
+    E("Round_digits", SF, r"^double Round\(double N, unsigned int digits\)", 0, [("digits", N)], {"digits": ("digits", N), "digits_max": ("gen_Round_digits_max", N)}),
+    E("Inv_Erf_saturated", SF, r"^double Inv_Erf\(double p\)", 0, [("p", Q)], {"p": ("p", Q)}),
+    E("Inv_Erf_outside", SF, r"^double Inv_Erf\(double p\)", 1, [("p", Q)], {"p": ("p", Q)}),
+    E("PMF_Binomial", ST, r"^double PMF_Binomial\(", 0, [("p", Q)], {"p": ("p", Q)}),
+    E("CDF_Binomial", ST, r"^double CDF_Binomial\(", 0, [("p", Q)], {"p": ("p", Q)}),
+    E("PMF_Poisson", ST, r"^double PMF_Poisson\(", 0, [("mu", Q), ("events", N)], {"expected_events": ("mu", Q), "events": ("events", N)}),
+    E("CDF_Poisson", ST, r"^double CDF_Poisson\(", 0, [("mu", Q), ("events", N)], {"expectation_value": ("mu", Q), "observed_events": ("events", N)}),
+    E("Inv_CDF_Poisson", ST, r"^double Inv_CDF_Poisson\(", 0, [("cdf", Q)], {"cdf": ("cdf", Q)}),
+    E("PDF_Exponential", ST, r"^double PDF_Exponential\(", 0, [("mean", Q)], {"mean": ("mean", Q)}),
+    E("CDF_Exponential", ST, r"^double CDF_Exponential\(", 0, [("mean", Q)], {"mean": ("mean", Q)}),
+    E("PDF_Maxwell_Boltzmann", ST, r"^double PDF_Maxwell_Boltzmann\(", 0, [("a", Q)], {"a": ("a", Q)}),
+    E("CDF_Maxwell_Boltzmann", ST, r"^double CDF_Maxwell_Boltzmann\(", 0, [("a", Q)], {"a": ("a", Q)}),
+    E("Log_Likelihood_Poisson_Binned", ST, r"^double Log_Likelihood_Poisson_Binned\(", 1, [("n_obs", N), ("n_bins", N), ("n_bkg", N)],
+      {"N_observed_binned.size()": ("n_obs", N), "N_bins": ("n_bins", N), "N_prediction_binned.size()": ("n_bins", N), "expected_background_binned.size()": ("n_bkg", N)}),
+    E("Sample_Metropolis_unbounded", ST, r"^std::vector<double> Sample_Metropolis\(", 0, [("n", N)], {"domain.size()": ("n", N)}),
+    E("Sample_Metropolis_bounded", ST, r"^std::vector<double> Sample_Metropolis\(", 1, [("n", N)], {"domain.size()": ("n", N)}),
+    E("Sample_Metropolis_2D_unbounded", ST, r"^std::vector<std::pair<double, double>> Sample_Metropolis_2D\(", 0, [("n", N)], {"domain.size()": ("n", N)}),
+    E("Sample_Metropolis_2D_bounded", ST, r"^std::vector<std::pair<double, double>> Sample_Metropolis_2D\(", 1, [("n", N)], {"domain.size()": ("n", N)}),
+    E("Transpose_Lists_row", LM, r"^extern std::vector<std::vector<T>> Transpose_Lists\(const std::vector<std::vector<T>>& lists\)", 0, [("row_size", N), ("m", N)], {"lists[i].size()": ("row_size", N), "M": ("m", N)}),
+    E("In_Units_row", UN, r"^std::vector<std::vector<double>> In_Units\(const std::vector<std::vector<double>>& quantities, std::vector<double> dimensions", 0,
+      [("row_size", N), ("n_dims", N)], {"quantities[i].size()": ("row_size", N), "dimensions.size()": ("n_dims", N)}),
+    E("Export_Table_row", UT, r"^void Export_Table\(", 1, [("n_dims", N), ("columns", N)], {"dimensions.size()": ("n_dims", N), "columns": ("columns", N), "dimensions.empty()": ("decide (n_dims = 0)", B), "data[line].size()": ("columns", N)}),
+    E("Import_Table_columns", UT, r"^std::vector<std::vector<double>> Import_Table\(", 1, [("n_dims", N), ("columns", N)], {"dimensions.size()": ("n_dims", N), "columns": ("columns", N), "dimensions.empty()": ("decide (n_dims = 0)", B)}),
 ]
+# numeric constants a guard refers to by name: (Lean name, type, file, regex with one group)
 CONSTANTS = [
-    ("Locate tolerance left",  "src/Numerics.cpp", r"boundary_tolerance_left\s*=\s*([0-9.eE+-]+)\s*\*", "1e-2"),
-    ("Locate tolerance right", "src/Numerics.cpp", r"boundary_tolerance_right\s*=\s*([0-9.eE+-]+)\s*\*", "1e-2"),
-    ("Round digits_max",       "src/Special_Functions.cpp", r"unsigned int digits_max\s*=\s*([0-9]+);", "7"),
+    ("gen_Locate_tolerance_left", Q, NU, r"boundary_tolerance_left\s*=\s*([0-9.eE+-]+)\s*\*"),
+    ("gen_Locate_tolerance_right", Q, NU, r"boundary_tolerance_right\s*=\s*([0-9.eE+-]+)\s*\*"),
+    ("gen_Round_digits_max", N, SF, r"unsigned int digits_max\s*=\s*([0-9]+);"),
 ]
+# `Check_For_Error(cond, …)` call sites (k = None): the condition is the first argument of the call
+CALL = r"Check_For_Error\s*\("
 
 
-def _norm(s):
-    return re.sub(r"\s+", " ", s).strip()
+class ParseError(Exception):
+    pass
 
 
-def _ifs_after(text, start):
-    """conditions of the successive `if(`s after position start (balanced parentheses), up to the next top-level `}` in column 0"""
-    end = text.find("\n}\n", start)
-    body = text[start:end if end > 0 else len(text)]
-    out, pos = [], 0
+# ------------------------------------------------------------------------------------------------------------------
+# extraction
+# ------------------------------------------------------------------------------------------------------------------
+
+def _balanced(text, i):
+    """text[i-1] == '(' ; returns the index just after the matching ')'"""
+    depth, j = 1, i
+    while j < len(text) and depth:
+        depth += text[j] == "("
+        depth -= text[j] == ")"
+        j += 1
+    if depth:
+        raise ParseError("unbalanced parentheses")
+    return j
+
+
+def _strip_comments(s):
+    s = re.sub(r"//[^\n]*", lambda m: " " * len(m.group(0)), s)
+    return re.sub(r"/\*.*?\*/", lambda m: re.sub(r"[^\n]", " ", m.group(0)), s, flags=re.S)
+
+
+def extract_condition(text, e):
+    """(condition text, line number) of entry e in the (comment-stripped) source text"""
+    m = re.search(e["anchor"], text, re.M)
+    if not m:
+        raise ParseError("anchor not found")
+    end = text.find("\n}\n", m.end())
+    end = len(text) if end < 0 else end
+    if e["k"] is None:
+        c = re.compile(CALL).search(text, m.end(), end)
+        if not c:
+            raise ParseError("no Check_For_Error call")
+        j = _balanced(text, c.end())
+        args = text[c.end():j - 1]
+        depth, cut = 0, None
+        for p, ch in enumerate(args):
+            depth += ch in "(["
+            depth -= ch in ")]"
+            if ch == "," and depth == 0:
+                cut = p
+                break
+        if cut is None:
+            raise ParseError("Check_For_Error without arguments")
+        return args[:cut].strip(), text.count("\n", 0, c.start()) + 1
+    pos, k = m.end(), e["k"]
     while True:
-        m = re.search(r"\bif\s*\(", body[pos:])
-        if not m:
-            return out
-        i = pos + m.end()
-        depth, j = 1, i
-        while j < len(body) and depth:
-            depth += body[j] == "("
-            depth -= body[j] == ")"
-            j += 1
-        out.append(_norm(body[i:j - 1]))
+        c = re.compile(r"\bif\s*\(").search(text, pos, end)
+        if not c:
+            raise ParseError("fewer than %d if-statements after the anchor" % (e["k"] + 1))
+        j = _balanced(text, c.end())
+        if k == 0:
+            return re.sub(r"\s+", " ", text[c.end():j - 1]).strip(), text.count("\n", 0, c.start()) + 1
+        k -= 1
         pos = j
 
 
-def extract(repo):
-    res = dict(same=[], changed=[], missing=[])
-    cache = {}
-    for name, f, anchor, k, expected in TABLE:
-        p = os.path.join(repo, f)
-        if p not in cache:
-            cache[p] = open(p).read() if os.path.exists(p) else ""
-        m = re.search(anchor, cache[p], re.M)
+# ------------------------------------------------------------------------------------------------------------------
+# parser (C++ expression subset)  ->  AST tuples
+# ------------------------------------------------------------------------------------------------------------------
+
+TOK = re.compile(r"\s*(?:(\d+\.\d*(?:[eE][+-]?\d+)?|\.\d+(?:[eE][+-]?\d+)?|\d+[eE][+-]?\d+|\d+)|([A-Za-z_][A-Za-z_0-9]*(?:::[A-Za-z_][A-Za-z_0-9]*)*)|(\|\||&&|==|!=|<=|>=|[<>!+\-*/()\[\].,]))")
+
+
+def tokenize(s):
+    out, pos = [], 0
+    s = s.strip()
+    while pos < len(s):
+        m = TOK.match(s, pos)
+        if not m or m.end() == pos:
+            raise ParseError("cannot tokenize at `%s`" % s[pos:pos + 12])
+        out.append(("num", m.group(1)) if m.group(1) else ("id", m.group(2)) if m.group(2) else ("op", m.group(3)))
+        pos = m.end()
+    return out
+
+
+class Parser:
+    def __init__(self, toks):
+        self.t, self.p = toks, 0
+
+    def peek(self):
+        return self.t[self.p] if self.p < len(self.t) else (None, None)
+
+    def take(self, v=None):
+        k = self.peek()
+        if k[0] is None or (v is not None and k[1] != v):
+            raise ParseError("expected `%s`, found `%s`" % (v, k[1]))
+        self.p += 1
+        return k
+
+    def parse(self):
+        e = self.p_or()
+        if self.p != len(self.t):
+            raise ParseError("trailing tokens from `%s`" % self.peek()[1])
+        return e
+
+    def p_or(self):
+        e = self.p_and()
+        while self.peek() == ("op", "||"):
+            self.take(); e = ("or", e, self.p_and())
+        return e
+
+    def p_and(self):
+        e = self.p_eq()
+        while self.peek() == ("op", "&&"):
+            self.take(); e = ("and", e, self.p_eq())
+        return e
+
+    def p_eq(self):
+        e = self.p_rel()
+        while self.peek() in (("op", "=="), ("op", "!=")):
+            o = self.take()[1]; e = ("cmp", o, e, self.p_rel())
+        return e
+
+    def p_rel(self):
+        e = self.p_add()
+        while self.peek() in (("op", "<"), ("op", "<="), ("op", ">"), ("op", ">=")):
+            o = self.take()[1]; e = ("cmp", o, e, self.p_add())
+        return e
+
+    def p_add(self):
+        e = self.p_mul()
+        while self.peek() in (("op", "+"), ("op", "-")):
+            o = self.take()[1]; e = ("bin", o, e, self.p_mul())
+        return e
+
+    def p_mul(self):
+        e = self.p_un()
+        while self.peek() == ("op", "*"):
+            self.take(); e = ("bin", "*", e, self.p_un())
+        return e
+
+    def p_un(self):
+        if self.peek() == ("op", "!"):
+            self.take(); return ("not", self.p_un())
+        if self.peek() == ("op", "-"):
+            self.take(); return ("neg", self.p_un())
+        return self.p_post()
+
+    def p_post(self):
+        k = self.peek()
+        if k[0] == "num":
+            self.take(); return ("num", k[1])
+        if k == ("op", "("):
+            self.take(); e = self.p_or(); self.take(")"); return ("paren", e)
+        if k[0] != "id":
+            raise ParseError("unexpected `%s`" % k[1])
+        self.take()
+        e = ("id", k[1])
+        while True:
+            k = self.peek()
+            if k == ("op", "."):
+                self.take(); m = self.take()
+                if m[0] != "id":
+                    raise ParseError("member name expected")
+                e = ("mem", e, m[1])
+            elif k == ("op", "("):
+                self.take(); args = []
+                if self.peek() != ("op", ")"):
+                    args.append(self.p_or())
+                    while self.peek() == ("op", ","):
+                        self.take(); args.append(self.p_or())
+                self.take(")"); e = ("call", e, tuple(args))
+            elif k == ("op", "["):
+                self.take(); ix = self.p_or(); self.take("]"); e = ("idx", e, ix)
+            else:
+                return e
+
+
+def flat(e):
+    """normalised C++ text of an operand (key of the atom tables)"""
+    k = e[0]
+    if k == "id" or k == "num":
+        return e[1]
+    if k == "mem":
+        return flat(e[1]) + "." + e[2]
+    if k == "call":
+        return flat(e[1]) + "(" + ", ".join(flat(a) for a in e[2]) + ")"
+    if k == "idx":
+        return flat(e[1]) + "[" + flat(e[2]) + "]"
+    if k == "bin":
+        return flat(e[2]) + " " + e[1] + " " + flat(e[3])
+    if k == "neg":
+        return "-" + flat(e[1])
+    if k == "paren":
+        return "(" + flat(e[1]) + ")"
+    raise ParseError("operand too complex: %r" % (e,))
+
+
+# ------------------------------------------------------------------------------------------------------------------
+# typing + Lean emission
+# ------------------------------------------------------------------------------------------------------------------
+
+def lit(txt, ty):
+    q = Fraction(txt)      # decimal / scientific notation, exact
+    if ty in (N, I):
+        if q.denominator != 1:
+            raise ParseError("non-integer literal %s compared with an integer operand" % txt)
+        return "(%d : %s)" % (q.numerator, ty)
+    if ty == Q:
+        return "(%d : Rat)" % q.numerator if q.denominator == 1 else "((%d : Rat) / %d)" % (q.numerator, q.denominator)
+    raise ParseError("literal %s where a %s is expected" % (txt, ty))
+
+
+def emit(e, atoms, want=None):
+    """returns (lean text, type); `want` is the type a literal should take"""
+    k = e[0]
+    if k == "paren":
+        s, t = emit(e[1], atoms, want)
+        return "(" + s + ")", t
+    if k in ("id", "mem", "call", "idx"):
+        key = flat(e)
+        if key in atoms:
+            return atoms[key]
+        if k == "call" and flat(e[1]) in ("fabs", "std::fabs", "std::abs") and len(e[2]) == 1:
+            s, t = emit(e[2][0], atoms, Q)
+            if t != Q:
+                raise ParseError("fabs of a non-double operand")
+            return "(rabs " + s + ")", Q
+        raise ParseError("unknown operand `%s`" % key)
+    if k == "num":
+        if want is None:
+            raise ParseError("literal %s without a typed partner" % e[1])
+        return lit(e[1], want), want
+    if k == "neg":
+        s, t = emit(e[1], atoms, want)
+        if t not in (I, Q):
+            raise ParseError("unary minus on an unsigned/boolean operand")
+        return "(-" + s + ")", t
+    if k == "bin":
+        a, b = e[2], e[3]
+        ta = _type_of(a, atoms) or _type_of(b, atoms) or want
+        sa, t1 = emit(a, atoms, ta)
+        sb, t2 = emit(b, atoms, ta)
+        if t1 != t2:
+            raise ParseError("mixed operand types in `%s`" % flat(e))
+        if t1 == N:
+            raise ParseError("arithmetic on unsigned operands (`%s`) is not translated (wrap-around)" % flat(e))
+        if t1 not in (I, Q):
+            raise ParseError("arithmetic on %s" % t1)
+        return "(" + sa + " " + e[1] + " " + sb + ")", t1
+    if k == "cmp":
+        a, b = e[2], e[3]
+        ta = _type_of(a, atoms) or _type_of(b, atoms)
+        if ta is None:
+            raise ParseError("comparison of two literals")
+        sa, t1 = emit(a, atoms, ta)
+        sb, t2 = emit(b, atoms, ta)
+        if t1 != t2:
+            raise ParseError("comparison of %s with %s in `%s %s %s`" % (t1, t2, flat(a), e[1], flat(b)))
+        if t1 == B:
+            if e[1] not in ("==", "!="):
+                raise ParseError("ordering of booleans")
+            return "(%s %s %s)" % (sa, "==" if e[1] == "==" else "!=", sb), B
+        op = {"==": "=", "!=": "≠", "<": "<", "<=": "≤", ">": ">", ">=": "≥"}[e[1]]
+        return "decide (%s %s %s)" % (sa, op, sb), B
+    if k in ("or", "and"):
+        sa, t1 = emit(e[1], atoms)
+        sb, t2 = emit(e[2], atoms)
+        if t1 != B or t2 != B:
+            raise ParseError("`%s` of non-boolean operands" % ("||" if k == "or" else "&&"))
+        return "(%s %s %s)" % (sa, "||" if k == "or" else "&&", sb), B
+    if k == "not":
+        s, t = emit(e[1], atoms)
+        if t != B:
+            raise ParseError("`!` of a non-boolean operand")
+        return "(!" + s + ")", B
+    raise ParseError("unsupported expression")
+
+
+def _type_of(e, atoms):
+    k = e[0]
+    if k == "num":
+        return None
+    if k == "paren" or k == "neg":
+        return _type_of(e[1], atoms)
+    if k == "bin":
+        return _type_of(e[2], atoms) or _type_of(e[3], atoms)
+    if k in ("id", "mem", "call", "idx"):
+        key = flat(e)
+        if key in atoms:
+            return atoms[key][1]
+        if k == "call":
+            return Q
+    return None
+
+
+CTYPE = {N: "unsigned int / size_t -> Nat (a comparison `… < 0` is false, as in the C++)", I: "int -> Int", Q: "double -> Rat (exact)", B: "bool -> Bool"}
+
+
+def translate(repo):
+    """returns (list of (entry, cond text, file, line, lean body | None, error | None), constants list)"""
+    cache, out = {}, []
+
+    def src(f):
+        if f not in cache:
+            p = os.path.join(repo, f)
+            cache[f] = _strip_comments(open(p).read()) if os.path.exists(p) else ""
+        return cache[f]
+    for e in TABLE:
+        cond, line, body, err = None, None, None, None
+        try:
+            cond, line = extract_condition(src(e["file"]), e)
+            s, t = emit(Parser(tokenize(cond)).parse(), e["atoms"])
+            if t != B:
+                raise ParseError("the condition is not boolean")
+            body = s
+        except ParseError as x:
+            err = str(x)
+        out.append((e, cond, e["file"], line, body, err))
+    consts = []
+    for name, ty, f, rx in CONSTANTS:
+        m = re.search(rx, src(f))
+        val, err = None, None
         if not m:
-            res["missing"].append(name); continue
-        conds = _ifs_after(cache[p], m.end())
-        if k >= len(conds):
-            res["missing"].append(name)
-        elif conds[k] == _norm(expected):
-            res["same"].append(name)
+            err = "anchor not found"
         else:
-            res["changed"].append("%s: `%s` (model written from `%s`)" % (name, conds[k], expected))
-    for name, f, rx, expected in CONSTANTS:
-        p = os.path.join(repo, f)
-        if p not in cache:
-            cache[p] = open(p).read() if os.path.exists(p) else ""
-        m = re.search(rx, cache[p])
-        if not m:
-            res["missing"].append(name)
-        elif m.group(1) == expected:
-            res["same"].append(name)
-        else:
-            res["changed"].append("%s: %s (model: %s)" % (name, m.group(1), expected))
-    return res
+            try:
+                val = lit(m.group(1), ty)
+            except (ParseError, ValueError) as x:
+                err = str(x)
+        consts.append((name, ty, f, m.group(1) if m else None, val, err))
+    return out, consts
+
+
+HEADER = """/-
+  GENERATED by translators/guards.py from the text of the C++ sources — do not edit.
+  One definition per guarded entry point: the condition of the `if( … ){ …; std::exit(EXIT_FAILURE); }` test
+  (for the dispatch tests of Rotation_Matrix / Inverse / Locate / Sample_Metropolis: of that `if`), parsed and
+  re-emitted operand by operand.  C++ types: unsigned int / size_t -> Nat (so `i < 0` is `false`, as in the C++),
+  int -> Int, double -> Rat (exact), bool -> Bool.  `LpProofs/C10/Generated.lean` proves each of them equal to the
+  hand-written guard of `LpModel/C10.lean` for all arguments.  Core-only.
+-/
+import LpModel.Basic
+set_option linter.unusedVariables false
+namespace Lp.C10.Gen
+open Lp
+
+"""
+
+
+def previous_defs(path):
+    """name -> full text block (comment + def) of the existing generated file (used when an entry cannot be parsed)"""
+    if not os.path.exists(path):
+        return {}
+    txt = open(path).read()
+    out = {}
+    for m in re.finditer(r"(/--(?:(?!/--).)*?-/\n(?:def|abbrev) (gen_[A-Za-z0-9_]+)[^\n]*\n(?:  [^\n]*\n)*)", txt, re.S):
+        out[m.group(2)] = m.group(1)
+    return out
+
+
+def render(entries, consts, prev):
+    parts, problems = [HEADER], []
+    for name, ty, f, raw, val, err in consts:
+        if err:
+            problems.append(name + ": " + err)
+            if name in prev:
+                parts.append(prev[name] + "\n")
+            continue
+        parts.append("/-- %s: literal `%s` -/\ndef %s : %s := %s\n\n" % (f, raw, name, ty, val))
+    for e, cond, f, line, body, err in entries:
+        nm = "gen_" + e["name"]
+        if err:
+            problems.append("%s: %s%s" % (e["name"], err, (" in `%s`" % cond) if cond else ""))
+            if nm in prev:
+                parts.append(re.sub(r"\s*\Z", "\n\n", prev[nm]))
+            continue
+        used = sorted({t for _, t in e["params"]})
+        parts.append("/-- %s:%d  `%s`\n    %s -/\ndef %s %s : Bool :=\n  %s\n\n" % (
+            f, line, cond, "; ".join(CTYPE[t] for t in used), nm,
+            " ".join("(%s : %s)" % p for p in e["params"]), body))
+    parts.append("end Lp.C10.Gen\n")
+    return "".join(parts), problems
+
+
+def write_if_changed(path, text):
+    old = open(path).read() if os.path.exists(path) else None
+    if old == text:
+        return False
+    os.makedirs(os.path.dirname(path), exist_ok=True)
+    tmp = path + ".tmp%d" % os.getpid()
+    with open(tmp, "w") as f:
+        f.write(text)
+    os.replace(tmp, path)
+    return True
+
+
+def regenerate(repo, out):
+    entries, consts = translate(repo)
+    text, problems = render(entries, consts, previous_defs(out))
+    changed = write_if_changed(out, text)
+    return dict(entries=len(entries), constants=len(consts), generated_rewritten=changed, problems=problems)
 
 
 if __name__ == "__main__":
-    r = extract(sys.argv[1] if len(sys.argv) > 1 else "/repo")
-    print("same %d, changed %d, missing %d" % (len(r["same"]), len(r["changed"]), len(r["missing"])))
-    for c in r["changed"]:
-        print("changed:", c)
-    for c in r["missing"]:
-        print("missing:", c)
+    here = os.path.dirname(os.path.abspath(__file__))
+    repo = sys.argv[1] if len(sys.argv) > 1 else os.environ.get("LP_REPO", "/repo")
+    out = sys.argv[2] if len(sys.argv) > 2 else os.path.join(here, "..", "lean", "LpModel", "C10", "GeneratedGuards.lean")
+    r = regenerate(repo, os.path.abspath(out))
+    print("%d entries, %d constants; %s %s" % (r["entries"], r["constants"], "rewrote" if r["generated_rewritten"] else "unchanged", os.path.abspath(out)))
+    for p in r["problems"]:
+        print("cannot anchor/parse:", p)
